@@ -205,7 +205,8 @@ CHECKS['C07'] = dict(
 LINTS = ('; AST lints over the modules the property lives in, run before anything is evaluated, for state Python keeps outside '
          'the modelled objects: mutable defaults that are changed, late-binding closures, memoisation over object state, self-storing '
          'descriptors, private-name stores outside the class (no mangling), functions closing over self stored on the object, super() of the '
-         'dynamic class, exact-class tests, merged names in tables of time variables; functions under an unknown decorator fail closed')
+         'dynamic class, exact-class tests, merged names in tables of time variables, class-level mutable containers filled by methods, solver '
+         'containers accumulated in place; functions under an unknown decorator fail closed; a mismatch against an un-evaluated value is undecided')
 EXTRA = {
     'C01': '; early exits of the propagation loops; Powertrain.reset re-read (fresh list per variable); C10 ratio rules and the C06 triples met re-read',
     'C02': '; loop-carried values substituted in the driving rule; C08 laws, reset and C06 triples re-read',
